@@ -1413,9 +1413,6 @@ Proof.
   apply pres_bind; [destruct (negb _); apply pres_unchanged; reflexivity|intros ?].
   unfold pres. apply spec_get_bind. intros s1 H1.
   destruct (strip_free (minifat s1) 0) as [mf' k]. cbv beta iota zeta.
-  eapply spec_bind with (Q := fun _ s => Safe s /\ same s1 s).
-  { destruct (_ <? _); [apply spec_panic; tauto|apply spec_ret; tauto]. }
-  intros ?.
   eapply spec_bind with (Q := fun _ => Safe); [apply safe_put_state; reflexivity|intros ?].
   repeat pres_step safe_leaf.
 Qed.
@@ -1624,9 +1621,6 @@ Proof.
   unfold pres. apply spec_get_bind. intros s1 H1.
   pose proof (walksafe_strip_free _ 0 H1) as Hsf.
   destruct (strip_free (minifat s1) 0) as [mf' k]. cbn [fst] in Hsf. cbv beta iota zeta.
-  eapply spec_bind with (Q := fun _ => mf WalkSafe).
-  { destruct (_ <? _); [apply spec_panic; tauto|apply spec_ret; tauto]. }
-  intros ?.
   eapply spec_bind with (Q := fun _ => mf WalkSafe).
   { intros s Hs. unfold put, mf. cbn [fst snd minifat w_mfree w_minifat]. split; [assumption|].
     intros [] _. assumption. }
